@@ -1,19 +1,38 @@
-(* C16 - Timestamps show the record's instant in the configured zone and layout.  PARTIAL.
+(* C16 - Timestamps show the record's instant in the configured zone and layout.
 
-   Proved here: everything logg decides - which zone (UTC or the instant's own), which
-   layout (the logger's, else by the date/time/microseconds flags, with the table of the
-   source), what SetUTCMode / SetTimeFormat leave in the logger, the framing of the text in
-   the three output formats - about reference functions that are proved equal, for all
-   arguments, to the translations of appendTimestamp / SetUTCMode / SetTimeFormat
-   REGENERATED from the source on every run (the four C16_gen theorems).
-   NOT proved: Go's Time.In(zone).Format(layout) is a parameter [render] of the model, and
-   the claim that time.Parse gives the instant back to the layout's precision is about
-   Go's time package; it is checked on every generated cell by the harness (direct oracle),
-   not proved.  The tie between the modelled decisions and the bytes really printed is the
-   correspondence run (Corr/C16.v, C16_corr_sound says what an accepted case means). *)
+   Proved here:
+   (1) everything logg decides - which zone (UTC or the instant's own), which layout (the
+       logger's, else by the date/time/microseconds flags, with the table of the source), what
+       SetUTCMode / SetTimeFormat leave in the logger, the framing of the text in the three
+       output formats - about reference functions that are proved equal, for all arguments, to
+       the translations of appendTimestamp / SetUTCMode / SetTimeFormat REGENERATED from the
+       source on every run (the four C16_gen theorems);
+   (2) the rendering itself: Model/TimeFmt.v is an executable model of Go's layout language
+       (every element of time.Time.AppendFormat, instants of the civil years 0..9999).  Its
+       calendar arithmetic is proved to be a bijection between day numbers and valid dates
+       (C16_calendar_days, C16_calendar_civil), every element's text has its exact width and character classes
+       (C16_format_shape), and THE PARSE-BACK CLAIM of the property is a theorem about a
+       specification-side reader of the layout language written independently of Go's parser
+       (C16_parse_back: the instant cut to the layout's unit and the offset come back, for every
+       layout that carries date, time and numeric zone unambiguously; C16_parse_back_fields:
+       every readable layout gives back exactly the fields it carries), instantiated for the
+       layouts of the source (C16_default_layouts_domain, C16_default_timestamp_parse_back).
+       Where Go itself is irregular - offsets in (-60 s, 0) under a seconds-bearing zone
+       element print as +00:00:-SS - the model says what Go does, the round trip excludes
+       exactly that region (zone_fits) and C16_parse_back_subminute_refuted is the witness
+       that it fails there.
+   NOT proved: that Go's time package IS the model.  That tie is the correspondence run
+   (Corr/C16.v): on every case the model's format_time, applied to the layout and zone the
+   regenerated decisions select, must equal the observed timestamp byte for byte (and Go's own
+   rendering of the same candidate), the reader must give back the instant on the observed text
+   wherever the theorem's hypotheses hold, and must agree with Go's own time.Parse wherever
+   that succeeds (C16_corr_sound, C16_corr_sound_model say what an accepted case means).
+   Outside the model: civil years outside 0..9999, offsets of 100 hours and more, and the
+   reading of zone abbreviations (MST), which do not determine an offset. *)
 Require Import Verif.Model.Base Verif.Model.Decision Verif.Model.Mode Verif.Model.DecisionRef Verif.Model.Time.
 Require Import Verif.Gen.Tables Verif.Gen.Decisions.
-Require Import Verif.Corr.C16 Verif.Proofs.TimeP.
+Require Import Verif.Model.TimeFmt.
+Require Import Verif.Corr.C16 Verif.Proofs.TimeP Verif.Proofs.CalendarP Verif.Proofs.TimeFmtP.
 Require Coq.Strings.String.
 Import Coq.Strings.String.StringSyntax.
 
@@ -144,4 +163,176 @@ Example C16_example :
     = [x22] ++ asc "O:3:04PM" ++ [x22]
   /\ timestamp render t_defaultLayouts None None (Z.lor c_Ldate c_Ltime) ShColor = asc "U:2006-01-0215:04:05Z07:00|"
   /\ timestamp render t_defaultLayouts None None c_LstdFlags ShJSON = [x22] ++ asc "O:15:04:05.000000Z07:00" ++ [x22].
+Proof. vm_compute. repeat split; reflexivity. Qed.
+
+(* ================================================================== *)
+(* the rendering (Go's layout language) and the parse-back claim       *)
+(* ================================================================== *)
+
+(* ---- calendar: day numbers <-> civil dates, both ways, no bound on the day number ---- *)
+Theorem C16_calendar_days : forall n, let '(y, m, d) := civil_from_days n in
+  days_from_civil y m d = n /\ 1 <= m <= 12 /\ 1 <= d <= days_in_month y m.
+Proof. exact dfc_cfd. Qed.
+Print Assumptions C16_calendar_days.
+
+Theorem C16_calendar_civil : forall y m d, valid_date y m d = true ->
+  civil_from_days (days_from_civil y m d) = (y, m, d).
+Proof. exact cfd_dfc. Qed.
+Print Assumptions C16_calendar_civil.
+
+(* ---- the text is defined on the whole domain and has, item by item, the element's shape:
+   literal bytes as they are, 2/3/4-digit fields of exactly that width, unpadded fields of one
+   or two digits without a leading zero, names from Go's tables, a fraction of exactly n digits
+   (.000 form) or of 1..n digits not ending in 0 or nothing at all (.999 form), a zone that is
+   Z or a sign followed by the digits and colons of the element ---- *)
+Theorem C16_format_shape : forall layout sec nsec off ab,
+  instant_ok sec nsec off -> zone_printable (tokens layout) off = true ->
+  exists text pieces,
+    format_time layout sec nsec off ab = Some text /\ text = concat pieces /\
+    Forall2 piece_ok (tokens layout) pieces.
+Proof. exact format_time_shape. Qed.
+Print Assumptions C16_format_shape.
+
+(* ---- parse-back, field by field: for every layout whose elements can be read back
+   unambiguously (no zone abbreviation; an unpadded number or a .999 fraction is not followed
+   by a digit, point or comma; all fraction elements of one precision) the reader returns
+   exactly the fields the layout carries, each with the instant's value (nanoseconds cut to
+   the layout's unit), and no other field ---- *)
+Theorem C16_parse_back_fields : forall layout sec nsec off ab,
+  layout_parses layout = true -> instant_ok sec nsec off -> zone_fits (tokens layout) off = true ->
+  exists text f,
+    format_time layout sec nsec off ab = Some text /\
+    parse_fields layout text = Some f /\
+    forall k, get f k = if has_kind (tokens layout) k
+                        then Some (tval (layout_unit (tokens layout)) (tm_of sec nsec off ab) k)
+                        else None.
+Proof. exact parse_fields_format. Qed.
+Print Assumptions C16_parse_back_fields.
+
+(* ---- THE parse-back claim: for every layout that moreover carries a four-digit year, month,
+   day, hour (24 h, or 12 h with AM/PM), minute, second and a numeric zone, every instant of the
+   years 0..9999 with any nanosecond part, in every zone whose offset the layout's zone
+   elements can express (multiple of their coarsest unit; not Go's irregular region), the text
+   reads back as the instant cut to the layout's unit, in the same offset ---- *)
+Theorem C16_parse_back : forall layout sec nsec off ab,
+  layout_roundtrips layout = true -> instant_ok sec nsec off -> zone_fits (tokens layout) off = true ->
+  exists text,
+    format_time layout sec nsec off ab = Some text /\
+    parse_time layout text =
+      Some (sec, nsec / layout_unit (tokens layout) * layout_unit (tokens layout), off).
+Proof. exact parse_time_format. Qed.
+Print Assumptions C16_parse_back.
+
+(* Go's own irregularity: the full statement (without zone_fits' second clause) is FALSE *)
+Theorem C16_parse_back_subminute_refuted :
+  exists layout sec nsec off ab text,
+    layout_roundtrips layout = true /\ instant_ok sec nsec off /\
+    off mod zone_unit (tokens layout) = 0 /\
+    format_time layout sec nsec off ab = Some text /\
+    text = lit "1969-12-31T23:59:59+00:00:-01" /\
+    parse_time layout text = None.
+Proof. exact parse_back_subminute_refuted. Qed.
+Print Assumptions C16_parse_back_subminute_refuted.
+
+(* ---- the layouts of the CURRENT source (by computation over Gen.Tables): every layout the
+   flags can select reads back field by field; every table entry that carries date, time and
+   zone is in the domain of C16_parse_back, and so is SetTimeFormat's default; with the date
+   and the time flag on, the selected layout is in that domain ---- *)
+Theorem C16_default_layouts_domain :
+  forallb (fun kl => layout_parses (snd kl) && implb (carries_instant (snd kl)) (layout_roundtrips (snd kl)))
+          t_defaultLayouts = true
+  /\ layout_parses c_TimeNano = true
+  /\ layout_roundtrips rfc3339nano = true
+  /\ (forall flags, layout_parses (layout_choice_ref t_defaultLayouts [] flags) = true)
+  /\ (forall flags, Z.land flags c_Ldate <> 0 -> Z.land flags c_Ltime <> 0 ->
+        layout_roundtrips (layout_choice_ref t_defaultLayouts [] flags) = true).
+Proof. exact default_layouts_domain. Qed.
+Print Assumptions C16_default_layouts_domain.
+
+(* ---- the logger's timestamp: zone and layout as the logger selects them ---- *)
+Theorem C16_timestamp_parse_back : forall utc_call layout_call flags sec nsec own_off own_ab,
+  let z := zone_choice_ref (utc_state utc_call) flags in
+  let l := layout_choice_ref t_defaultLayouts (layout_state layout_call) flags in
+  let off := chosen_off z own_off in
+  layout_roundtrips l = true -> instant_ok sec nsec off -> zone_fits (tokens l) off = true ->
+  exists text,
+    format_time l sec nsec off (chosen_abbrev z own_ab) = Some text /\
+    parse_time l text = Some (sec, nsec / layout_unit (tokens l) * layout_unit (tokens l), off).
+Proof. exact timestamp_parse_back. Qed.
+Print Assumptions C16_timestamp_parse_back.
+
+(* no layout set, date and time flags on, any UTC mode and local-time flag: every instant in a
+   minute-aligned zone reads back - to the second, or to the microsecond with Lmicroseconds *)
+Theorem C16_default_timestamp_parse_back : forall utc_call flags sec nsec own_off own_ab,
+  Z.land flags c_Ldate <> 0 -> Z.land flags c_Ltime <> 0 ->
+  let z := zone_choice_ref (utc_state utc_call) flags in
+  let l := layout_choice_ref t_defaultLayouts [] flags in
+  let off := chosen_off z own_off in
+  let u := if Z.land flags c_Lmicroseconds =? 0 then 1000000000 else 1000 in
+  instant_ok sec nsec off -> off mod 60 = 0 ->
+  exists text,
+    format_time l sec nsec off (chosen_abbrev z own_ab) = Some text /\
+    parse_time l text = Some (sec, nsec / u * u, off).
+Proof. exact default_timestamp_parse_back. Qed.
+Print Assumptions C16_default_timestamp_parse_back.
+
+(* what a correspondence case accepted by Corr.C16.ok establishes about the modelled rendering *)
+Theorem C16_corr_sound_model : forall c, ok c = true ->
+  match model_text c with
+  | Some r => c_model c = true /\ timestamp_text (c_shape c) r = c_observed c
+  | None => c_model c = false
+  end.
+Proof. exact corr_sound_model. Qed.
+Print Assumptions C16_corr_sound_model.
+
+(* ---- non-vacuity: the hypotheses hold, and the conclusions compute, on instants that are
+   not in the middle of the range ---- *)
+Definition rt (layout : bytes) (sec nsec off : Z) : bool :=
+  layout_roundtrips layout && instant_okb sec nsec off && zone_fits (tokens layout) off.
+
+(* one second before the epoch, maximal nanoseconds, a negative half-hour zone, microsecond layout *)
+Example C16_example_before_epoch :
+  let l := lit "2006-01-02T15:04:05.000000Z07:00" in
+  rt l (-1) 999999999 (-12600) = true /\
+  format_time l (-1) 999999999 (-12600) (lit "NST") = Some (lit "1969-12-31T20:29:59.999999-03:30") /\
+  parse_time l (lit "1969-12-31T20:29:59.999999-03:30") = Some (-1, 999999000, -12600).
+Proof. vm_compute. repeat split; reflexivity. Qed.
+
+(* the leap day of 2000 and the last nanosecond of year 9999, RFC3339Nano, +05:45 *)
+Example C16_example_leap_day_and_last_instant :
+  let l := rfc3339nano in
+  rt l 951827696 120000000 20700 = true /\
+  format_time l 951827696 120000000 20700 (lit "NPT") = Some (lit "2000-02-29T18:19:56.12+05:45") /\
+  parse_time l (lit "2000-02-29T18:19:56.12+05:45") = Some (951827696, 120000000, 20700) /\
+  rt l 253402300799 999999999 0 = true /\
+  format_time l 253402300799 999999999 0 (lit "UTC") = Some (lit "9999-12-31T23:59:59.999999999Z") /\
+  parse_time l (lit "9999-12-31T23:59:59.999999999Z") = Some (253402300799, 999999999, 0).
+Proof. vm_compute. repeat split; reflexivity. Qed.
+
+(* the first instant of year 0 (a leap year), a zone with seconds under a seconds-bearing
+   layout, and a 12-hour layout with names *)
+Example C16_example_year_zero_and_names :
+  let l := lit "2006-01-02T15:04:05.000000000Z07:00:00" in
+  rt l (-62167219200) 1 0 = true /\
+  format_time l (-62167219200) 1 0 (lit "UTC") = Some (lit "0000-01-01T00:00:00.000000001Z") /\
+  rt l (-62162035201) 0 (-17762) = true /\
+  format_time l (-62162035201) 0 (-17762) (lit "LMT") = Some (lit "0000-02-29T19:03:57.000000000-04:56:02") /\
+  parse_time l (lit "0000-02-29T19:03:57.000000000-04:56:02") = Some (-62162035201, 0, -17762) /\
+  let k := lit "Monday, January 2 2006 3:04:05PM -0700" in
+  rt k 1709210096 5 (-18000) = true /\
+  format_time k 1709210096 5 (-18000) (lit "EST") = Some (lit "Thursday, February 29 2024 7:34:56AM -0500") /\
+  parse_time k (lit "Thursday, February 29 2024 7:34:56AM -0500") = Some (1709210096, 0, -18000).
+Proof. vm_compute. repeat split; reflexivity. Qed.
+
+(* the candidate-only route of the correspondence: the first second of year 10000 is outside
+   format_time's domain (Go prints five digits there); the case is then judged on Go's own
+   rendering of the selected candidate alone, and must say so (c_model = false) *)
+Example C16_example_candidate_route :
+  let l := asc "2006-01-02T15:04:05.000000Z07:00" in
+  let c := mk None None (Z.lor c_Ldate c_Lmicroseconds) ShJSON
+              [(ZoneUTC, l, asc "10000-01-01T00:00:00.000000Z")]
+              ([x22] ++ asc "10000-01-01T00:00:00.000000Z" ++ [x22])
+              253402300800 0 3600 (asc "CET") false false None in
+  model_text c = None /\ ok c = true /\ ok (mk (c_utc c) (c_layout c) (c_flags c) (c_shape c) (c_cands c) (c_observed c)
+                                            (c_sec c) (c_nsec c) (c_off c) (c_abbrev c) true false None) = false.
 Proof. vm_compute. repeat split; reflexivity. Qed.
